@@ -249,6 +249,22 @@ pub fn g_pcmp<T>(_: &T, _: &T) -> Option<Ordering> { Some(Ordering::Equal) }
 pub fn g_eq<T>(_: &T, _: &T) -> bool { true }
 pub fn g_hash<T, H: Hasher>(_: &T, h: &mut H) { h.write_u8(7) }
 
+/// Declared bound for generic cases: five distinguishable keys reachable through `T: HasK`.
+pub trait HasK {
+    fn k1(&self) -> u8;
+    fn k2(&self) -> u8;
+    fn k3(&self) -> u8;
+    fn k4(&self) -> u8;
+    fn k5(&self) -> u8;
+}
+impl HasK for V {
+    fn k1(&self) -> u8 { self.0 % 2 }
+    fn k2(&self) -> u8 { self.0 % 3 }
+    fn k3(&self) -> u8 { self.0 / 2 }
+    fn k4(&self) -> u8 { self.0 / 3 }
+    fn k5(&self) -> u8 { (self.0 + 1) / 2 }
+}
+
 // ---------------------------------------------------------------------------
 // recording hasher
 // ---------------------------------------------------------------------------
